@@ -416,6 +416,27 @@ def processQuery (st : DState) : P String := do
     let got := l.mergeSort (fun a b => decide (a ≤ b))
     if got != want then orc := orc ++ ["o16c"]
     pure s!"QUERY MKALL agree=1 O={join orc}"
+  else if q == "RS" then do
+    -- registry: single lookup (strings that are not names of the world cannot be registered: none)
+    let a ← rawAddr
+    let t ← tok
+    if t == "err" then pure s!"QUERY RS agree=0 O=o14q"
+    else do
+      let _ ← tok
+      let r ← opt royInfo
+      let mr := match rawValid a with | some c => regSingle w.reg c | none => none
+      pure s!"QUERY RS agree={if r == mr then 1 else 0} O=-"
+  else if q == "RM" then do
+    let cs ← listOf rawAddr
+    let t ← tok
+    let want : Option (List (Option RoyaltyInfo)) :=
+      if cs.isEmpty then none
+      else some (cs.map (fun a => match rawValid a with | some c => regSingle w.reg c | none => none))
+    if t == "err" then pure s!"QUERY RM{cs.length} agree={if want.isNone then 1 else 0} O=-"
+    else do
+      let _ ← tok
+      let rs ← listOf (opt royInfo)
+      pure s!"QUERY RM{cs.length} agree={if some rs == want then 1 else 0} O={if rs.length == cs.length then "-" else "o14q"}"
   else if q == "RA" then do
     let r ← qresp
     let agree : Bool := match r with
